@@ -11,6 +11,7 @@
 package main
 
 import (
+	"sync/atomic"
 	"bytes"
 	"context"
 	"errors"
@@ -273,6 +274,21 @@ func (mo *monitor) note(op *model.Op, out *model.Outcome) {
 	}
 }
 
+// newImmutableTags makes an in-memory registry in immutable-tags mode the way a caller with one Config
+// variable does: the value is changed again (for the next registry it builds) as soon as this one exists.
+func newImmutableTags() *ocimem.Registry {
+	n := cfgReuse.Add(1)
+	cfg := ocimem.Config{ImmutableTags: true}
+	reg := ocimem.NewWithConfig(&cfg)
+	if n%2 == 0 {
+		cfg.ImmutableTags = false
+		ocimem.NewWithConfig(&cfg)
+	}
+	return reg
+}
+
+var cfgReuse atomic.Int64
+
 func immutableHistory(run *evid.Run, h int, wrapper bool) {
 	rng := run.Rand(142, uint64(h))
 	u := model.SmallUniverse()
@@ -284,7 +300,7 @@ func immutableHistory(run *evid.Run, h int, wrapper bool) {
 		reg = ocifilter.Immutable(ocimem.New())
 		m = model.New(false)
 	} else {
-		reg = ocimem.NewWithConfig(&ocimem.Config{ImmutableTags: true})
+		reg = newImmutableTags()
 	}
 	env := model.NewEnv(reg)
 	env.Scribble = true // the caller reuses every buffer it handed in: stored bytes must not follow
@@ -366,7 +382,7 @@ func immutableHistory(run *evid.Run, h int, wrapper bool) {
 // went through in the order delete-then-push - which cannot be, since the push checks its references.
 // So: if the tagged push succeeded, what it references is still retrievable.
 func deleteVersusTagPush(run *evid.Run, iters int) {
-	reg := ocimem.NewWithConfig(&ocimem.Config{ImmutableTags: true})
+	reg := newImmutableTags()
 	ctx := context.Background()
 	for it := 0; it < iters; it++ {
 		repo := fmt.Sprintf("dv/r%d", it)
@@ -454,7 +470,7 @@ func deleteVersusTagPush(run *evid.Run, iters int) {
 // tag resolves to the same bytes and the layer it references is retrievable with its bytes.
 func uploadSessionAfterlife(run *evid.Run, idx int) {
 	rng := run.Rand(147, uint64(idx))
-	reg := ocimem.NewWithConfig(&ocimem.Config{ImmutableTags: true})
+	reg := newImmutableTags()
 	ctx := context.Background()
 	repo := fmt.Sprintf("al/r%d", idx)
 	layer := []byte(fmt.Sprintf("layer %d %s", idx, strings.Repeat("L", rng.IntN(300))))
@@ -612,7 +628,7 @@ func pressure(rng *rand.Rand, u *model.Universe, m *model.Model, mo *monitor) *m
 // ---------- concurrent phase on ocimem ImmutableTags
 
 func concurrentRound(run *evid.Run, round int) {
-	reg := ocimem.NewWithConfig(&ocimem.Config{ImmutableTags: true})
+	reg := newImmutableTags()
 	ctx := context.Background()
 	const repo = "r"
 	nG := 8 + round%9
